@@ -25,15 +25,13 @@ Proof. intros ? ?. reflexivity. Qed.
 
 Lemma safe_act {R} t (f : act) (k : V -> prog R) l Q :
   (forall g a tr, Inv g a tr -> views a t = l ->
-     exists a' v', views a' = updv (views a) t v' /\
-                   Inv (fst (fst (f g))) a' (tr ++ Conc.tag t (snd (f g))) /\
-                   safe t (k (snd (fst (f g)))) v' Q) ->
+     exists d b lv hi v', Inv (fst (fst (f g))) (auxset a d b lv hi t v') (tr ++ Conc.tag t (snd (f g))) /\
+                          safe t (k (snd (fst (f g)))) v' Q) ->
   safe t (Act f k) l Q.
 Proof.
-  intros H. cbn [Conc.safe]. intros g a tr HI Hv. destruct (H g a tr HI Hv) as (a' & v' & E & A & B).
-  exists a'. split; [exact A|]. split.
-  - intros t' Ht. unfold view. rewrite E. now apply updv_other.
-  - unfold view. rewrite E, updv_same. exact B.
+  intros H. cbn [Conc.safe]. intros g a tr HI Hv. destruct (H g a tr HI Hv) as (d & b & lv & hi & v' & A & B).
+  exists (auxset a d b lv hi t v'). split; [exact A|]. split; [apply frame_auxset|].
+  rewrite view_auxset. exact B.
 Qed.
 
 (** a step that changes only the thread's own view *)
@@ -44,7 +42,7 @@ Lemma safe_act_v {R} t (f : act) (k : V -> prog R) l Q :
   safe t (Act f k) l Q.
 Proof.
   intros H. apply safe_act. intros g a tr HI Hv. destruct (H g a tr HI Hv) as (v' & A & B).
-  exists (auxv a t v'), v'. split; [reflexivity|]. split; [exact A|exact B].
+  exists (dpre a), (bnd a), (live a), (hidx a), v'. split; [exact A|exact B].
 Qed.
 
 (** a step after which the thread's view is what it was *)
@@ -83,42 +81,23 @@ Proof.
 Qed.
 
 (** ** growing knowledge: [ext l l']: same status and private node, more facts *)
-(** the status may only gain the "has seen the queue empty" flag *)
-Definition st_le (s s' : pst) : Prop :=
-  match s, s' with
-  | PPend o i b, PPend o' i' b' => o' = o /\ i' = i /\ (b = true -> b' = true)
-  | _, _ => s' = s
-  end.
-Lemma st_le_refl s : st_le s s.
-Proof. destruct s; cbn; auto. Qed.
-Lemma st_le_trans s1 s2 s3 : st_le s1 s2 -> st_le s2 s3 -> st_le s1 s3.
-Proof.
-  destruct s1, s2, s3; cbn; try congruence; try (intros; discriminate).
-  intros (A & B & C) (D & E & F). subst. auto.
-Qed.
-
 Definition ext (l l' : tview) : Prop :=
-  st_le (tv_st l) (tv_st l') /\ tv_priv l' = tv_priv l /\ (tv_pnx l' = tv_pnx l /\ tv_wit l' = tv_wit l) /\
+  tv_st l' = tv_st l /\ tv_priv l' = tv_priv l /\ tv_pnx l' = tv_pnx l /\
   incl (tv_inG l) (tv_inG l') /\ incl (tv_idx l) (tv_idx l') /\ (tv_hlow l <= tv_hlow l')%nat.
 
-Lemma ext_mk l l' :
-  tv_st l' = tv_st l -> tv_priv l' = tv_priv l -> tv_pnx l' = tv_pnx l -> tv_wit l' = tv_wit l ->
-  incl (tv_inG l) (tv_inG l') -> incl (tv_idx l) (tv_idx l') -> (tv_hlow l <= tv_hlow l')%nat -> ext l l'.
-Proof. intros E1 E2 E3 E4 E5 E6 E7. unfold ext. rewrite E1. repeat split; auto using st_le_refl. Qed.
-
 Lemma ext_refl l : ext l l.
-Proof. repeat split; auto using incl_refl, st_le_refl. Qed.
+Proof. repeat split; auto using incl_refl. Qed.
 Lemma ext_trans l1 l2 l3 : ext l1 l2 -> ext l2 l3 -> ext l1 l3.
 Proof.
-  intros (A1 & A2 & (A3 & A3') & A4 & A5 & A6) (B1 & B2 & (B3 & B3') & B4 & B5 & B6).
-  repeat split; try congruence; eauto using incl_tran, st_le_trans; lia.
+  intros (A1 & A2 & A3 & A4 & A5 & A6) (B1 & B2 & B3 & B4 & B5 & B6).
+  repeat split; try congruence; eauto using incl_tran; lia.
 Qed.
 
 Definition addG (l : tview) (xs : list nat) : tview :=
-  mkTV (tv_st l) (tv_priv l) (tv_pnx l) (xs ++ tv_inG l) (tv_idx l) (tv_hlow l) (tv_wit l).
+  mkTV (tv_st l) (tv_priv l) (tv_pnx l) (xs ++ tv_inG l) (tv_idx l) (tv_hlow l).
 
 Lemma ext_addG l xs : ext l (addG l xs).
-Proof. repeat split; cbn; auto using incl_refl, incl_appr, st_le_refl. Qed.
+Proof. repeat split; cbn; auto using incl_refl, incl_appr. Qed.
 
 (** a load after which the thread adds linked nodes to what it knows *)
 Lemma step_addG g a tr t l xs k o b :
@@ -126,7 +105,7 @@ Lemma step_addG g a tr t l xs k o b :
   Inv g (auxv a t (addG l xs)) (tr ++ Conc.tag t [EvAcc k o b]).
 Proof.
   intros HI Hv Hx. apply Inv_acc.
-  pose proof (I_views _ _ _ HI t) as (P1 & P2 & P3 & P4 & _). rewrite Hv in P1, P2, P3, P4.
+  pose proof (I_views _ _ _ HI t) as (P1 & P2 & P3 & P4). rewrite Hv in P1, P2, P3, P4.
   apply Inv_setv; try (rewrite Hv; reflexivity); cbn; auto.
   intros m Hm. apply in_app_or in Hm. destruct Hm; auto.
 Qed.
@@ -256,80 +235,64 @@ Lemma ld_next_plain y g : fst (fst (a_ld_next y g)) = g /\ exists kk o b, snd (a
 Proof. cbn. eauto. Qed.
 
 (** ** enqueue *)
-Definition shE (v : Z) (id n : nat) (l : tview) : Prop :=
-  st_op (tv_st l) = Some (Enq v) /\ st_id (tv_st l) = id /\ tv_priv l = Some n.
+Definition shE (v : Z) (n : nat) (l : tview) : Prop := tv_st l = PPend (Enq v) /\ tv_priv l = Some n.
 Definition linE (l : tview) : Prop := tv_st l = PLin (RBool true) /\ tv_priv l = None.
 
-Lemma shE_ext v id n l l' : shE v id n l -> ext l l' -> shE v id n l'.
-Proof.
-  intros (A & B & C) (E1 & E2 & _). unfold shE. rewrite E2. split; [|split; [|exact C]];
-    destruct (tv_st l), (tv_st l'); cbn in *; try discriminate; try congruence;
-    destruct E1 as (X1 & X2 & X3); congruence.
-Qed.
+Lemma shE_ext v n l l' : shE v n l -> ext l l' -> shE v n l'.
+Proof. intros (A & B) (E1 & E2 & _). split; congruence. Qed.
 
-Lemma shE_view v id n l : shE v id n l ->
-  l = mkTV (PPend (Enq v) id (st_ob (tv_st l))) (Some n) (tv_pnx l) (tv_inG l) (tv_idx l) (tv_hlow l) (tv_wit l).
-Proof.
-  destruct l as [s p x g i h w]; unfold shE; cbn. intros (E1 & E2 & E3). subst.
-  destruct s; cbn in *; try discriminate. injection E1 as ->. reflexivity.
-Qed.
+Lemma shE_view v n l : shE v n l -> l = mkTV (PPend (Enq v)) (Some n) (tv_pnx l) (tv_inG l) (tv_idx l) (tv_hlow l).
+Proof. destruct l; unfold shE; cbn. intros (E1 & E2). subst. reflexivity. Qed.
 
 (** the node is linked: both kinds of successful CAS on [tl->next] *)
-Lemma link_step g a tr t v id n l tl pn :
-  Inv g a tr -> views a t = l -> shE v id n l -> tv_pnx l = pn -> snd pn = false -> In tl (tv_inG l) ->
-  tv_wit l = Some tl ->
+Lemma link_step g a tr t v n l tl pn :
+  Inv g a tr -> views a t = l -> shE v n l -> tv_pnx l = pn -> snd pn = false -> In tl (tv_inG l) ->
   nxt g tl = pn ->
-  exists a' v', views a' = updv (views a) t v' /\ Inv (set_next g tl (Some n, false)) a' tr /\ linE v' /\ In n (tv_inG v').
+  exists d b lv hi v', Inv (set_next g tl (Some n, false)) (auxset a d b lv hi t v') tr /\ linE v' /\ In n (tv_inG v').
 Proof.
-  intros HI Hv Hs Hp Hm Hin Hw Hnx. rewrite (shE_view _ _ _ _ Hs) in Hv. rewrite Hp, Hw in Hv.
+  intros HI Hv Hs Hp Hm Hin Hnx. rewrite (shE_view _ _ _ Hs) in Hv. rewrite Hp in Hv.
   destruct pn as [[s|] m]; cbn in Hm; subst m.
-  - destruct (Inv_link_basket _ _ _ _ _ _ _ _ _ _ _ _ _ HI Hv Hin Hnx) as (k & HI').
-    do 2 eexists. split; [|split; [exact HI'|]]; [reflexivity|]. split; [split; reflexivity|cbn; now left].
-  - do 2 eexists. split; [|split; [eapply Inv_link_end; eauto|]]; [reflexivity|]. split; [split; reflexivity|cbn; now left].
+  - destruct (Inv_link_basket _ _ _ _ _ _ _ _ _ _ _ HI Hv Hin Hnx) as (k & HI').
+    do 5 eexists. split; [exact HI'|]. split; [split; reflexivity|cbn; now left].
+  - do 5 eexists. split; [eapply Inv_link_end; eauto|]. split; [split; reflexivity|cbn; now left].
 Qed.
 
-Definition Qtry (v : Z) (id n : nat) : option bool -> tview -> Prop :=
+Definition Qtry (v : Z) (n : nat) : option bool -> tview -> Prop :=
   fun r l' => match r with
               | Some true => linE l'
-              | Some false => shE v id n l'
+              | Some false => shE v n l'
               | None => True
               end.
 
-Lemma keep_view g a tr t l k o b : Inv g a tr -> views a t = l -> Inv g (auxv a t l) (tr ++ Conc.tag t [EvAcc k o b]).
+Lemma safe_try_again fuel : forall t s1 tl n v l,
+  shE v n l -> In tl (tv_inG l) -> safe t (try_again fuel t s1 tl n) l (Qtry v n).
 Proof.
-  intros HI Hv. apply Inv_acc. pose proof (I_views _ _ _ HI t) as (P1 & P2 & P3 & P4 & _). rewrite Hv in P1, P2, P3, P4.
-  apply Inv_setv; try (rewrite Hv; reflexivity); auto.
-Qed.
-
-Lemma safe_try_again fuel : forall t s1 tl n v id l,
-  shE v id n l -> In tl (tv_inG l) -> tv_wit l = Some tl -> safe t (try_again fuel t s1 tl n) l (Qtry v id n).
-Proof.
-  induction fuel as [|f IH]; intros t s1 tl n v id l Hs Hin Hw; cbn [try_again]; [exact I|].
+  induction fuel as [|f IH]; intros t s1 tl n v l Hs Hin; cbn [try_again]; [exact I|].
   apply Conc.safe_bind. eapply Conc.safe_weaken; [|apply safe_gprotect_m; exact Hin].
   intros [pn|] l1 Hl; [|exact I]. destruct Hl as (E1 & _).
-  pose proof (shE_ext _ _ _ _ _ Hs E1) as Hs1.
+  pose proof (shE_ext _ _ _ _ Hs E1) as Hs1.
   assert (Hin1 : In tl (tv_inG l1)) by (apply E1; exact Hin).
-  assert (Hw1 : tv_wit l1 = Some tl) by (destruct E1 as (_ & _ & (_ & X) & _); congruence).
   apply safe_ld_keep; [apply ld_tail_plain|]. intros r.
   destruct (negb (Nat.eqb (vn r) tl)); [exact Hs1|].
   apply safe_ld_keep; [apply ld_next_plain|]. intros r2.
   destruct (mp_eqb (vm r2) pn && negb (snd pn)) eqn:Ec; [|exact Hs1].
   apply andb_prop in Ec. destruct Ec as [_ Em]. apply negb_true_iff in Em.
   (* pNew->m_pNext.store( pNext ) *)
-  set (l2 := mkTV (PPend (Enq v) id (st_ob (tv_st l1))) (Some n) pn (tv_inG l1) (tv_idx l1) (tv_hlow l1) (tv_wit l1)).
-  assert (Hs2 : shE v id n l2) by (repeat split).
   apply safe_act_v. intros g a tr HI Hv. cbn [a_st_next fst snd].
-  exists l2. split.
-  { apply Inv_acc. rewrite (shE_view _ _ _ _ Hs1) in Hv. eapply Inv_st_next_priv; eauto. }
+  exists (mkTV (PPend (Enq v)) (Some n) pn (tv_inG l1) (tv_idx l1) (tv_hlow l1)). split.
+  { apply Inv_acc. rewrite (shE_view _ _ _ Hs1) in Hv. eapply Inv_st_next_priv; eauto. }
   clear g a tr HI Hv.
   (* t->m_pNext.compare_exchange_weak( pNext, pNew ) *)
   apply safe_act. intros g a tr HI Hv. unfold a_cas_next.
   destruct (mp_eqb (nxt g tl) pn) eqn:Ecas; cbn [fst snd vb].
   - apply mp_eqb_eq in Ecas.
-    destruct (link_step _ _ _ _ v id n _ tl pn HI Hv Hs2) as (a' & v' & Ea & HI' & Hl' & _); auto.
-    exists a', v'. split; [exact Ea|]. split; [apply Inv_acc; exact HI'|exact Hl'].
-  - exists (auxv a t l2), l2. split; [reflexivity|]. split; [eapply keep_view; eauto|].
-    apply IH; auto.
+    destruct (link_step _ _ _ _ v n _ tl pn HI Hv) as (d & b & lv & hi & v' & HI' & Hl' & _); auto; try (split; reflexivity).
+    exists d, b, lv, hi, v'. split; [apply Inv_acc; exact HI'|exact Hl'].
+  - exists (dpre a), (bnd a), (live a), (hidx a), (mkTV (PPend (Enq v)) (Some n) pn (tv_inG l1) (tv_idx l1) (tv_hlow l1)).
+    split.
+    + apply Inv_acc. pose proof (I_views _ _ _ HI t) as (P1 & P2 & P3 & P4). rewrite Hv in P1, P2, P3, P4.
+      apply Inv_setv; try (rewrite Hv; reflexivity); auto.
+    + apply IH; [split; reflexivity|exact Hin1].
 Qed.
 
 Definition Qadv (l : tview) : option (bool * nat) -> tview -> Prop :=
@@ -364,24 +327,24 @@ Qed.
 Definition Qenq : option (nat * nat) -> tview -> Prop :=
   fun r l' => match r with Some _ => linE l' | None => True end.
 
-Lemma safe_enq_loop cf fuel : forall t s0 s1 c d n v id l,
-  shE v id n l -> safe t (enq_loop cf fuel t s0 s1 c d n) l Qenq.
+Lemma safe_enq_loop cf fuel : forall t s0 s1 c d n v l,
+  shE v n l -> safe t (enq_loop cf fuel t s0 s1 c d n) l Qenq.
 Proof.
-  induction fuel as [|f IH]; intros t s0 s1 c d n v id l Hs; cbn [enq_loop]; [exact I|].
+  induction fuel as [|f IH]; intros t s0 s1 c d n v l Hs; cbn [enq_loop]; [exact I|].
   apply Conc.safe_bind. eapply Conc.safe_weaken; [|apply safe_gprotect_tail].
   intros [tl|] l1 Hl; [|exact I]. destruct Hl as (E1 & Hin1).
-  pose proof (shE_ext _ _ _ _ _ Hs E1) as Hs1.
+  pose proof (shE_ext _ _ _ _ Hs E1) as Hs1.
   (* pNext = t->m_pNext.load() *)
   apply safe_act_v. intros g a tr HI Hv. cbn [a_ld_next fst snd vm].
+  exists (addG l1 (olist (fst (nxt g tl)))). split.
+  { eapply step_addG; eauto. eapply succ_in_GG; eauto. eapply inG_GG; eauto. }
+  assert (Hs2 : shE v n (addG l1 (olist (fst (nxt g tl))))) by (eapply shE_ext; [exact Hs1|apply ext_addG]).
+  assert (Hin2 : In tl (tv_inG (addG l1 (olist (fst (nxt g tl)))))) by (cbn; apply in_or_app; now right).
   destruct (nxt g tl) as [[p0|] b0] eqn:Enx; cbn [fst olist] in *.
   - (* tail is misplaced *)
-    exists (addG l1 [p0]). split.
-    { eapply step_addG; eauto. intros x [<-|[]]. eapply linked_succ; [apply (I_linked _ _ _ HI)|eapply inG_GG; eauto|].
-      unfold nptr. now rewrite Enx. }
-    assert (Hs2 : shE v id n (addG l1 [p0])) by (eapply shE_ext; [exact Hs1|apply ext_addG]).
     set (l2 := addG l1 [p0]) in *. clear g a tr HI Hv Enx.
     assert (Hretry : forall c' d', safe t (hp_clear t c (hp_clear t d (enq_loop cf f t s0 s1 c' d' n))) l2 Qenq).
-    { intros c' d'. apply safe_hp_clear. apply safe_hp_clear. apply (IH _ _ _ _ _ _ v id). exact Hs2. }
+    { intros c' d'. apply safe_hp_clear. apply safe_hp_clear. apply (IH _ _ _ _ _ _ v). exact Hs2. }
     apply safe_hp_assign.
     apply safe_ld_keep; [apply ld_tail_plain|]. intros r2.
     destruct (negb (Nat.eqb (vn r2) tl)); [apply Hretry|].
@@ -389,82 +352,62 @@ Proof.
     destruct (negb (mp_eqb (vm r3) (Some p0, b0))); [apply Hretry|].
     apply Conc.safe_bind. eapply Conc.safe_weaken; [|apply safe_adv_loop; cbn; now left].
     intros [[bb pl]|] l3 Hl; [|exact I]. destruct Hl as (E3 & Hin3).
-    pose proof (shE_ext _ _ _ _ _ Hs2 E3) as Hs3.
+    pose proof (shE_ext _ _ _ _ Hs2 E3) as Hs3.
     assert (Hretry3 : forall c' d', safe t (hp_clear t c (hp_clear t d (enq_loop cf f t s0 s1 c' d' n))) l3 Qenq).
-    { intros c' d'. apply safe_hp_clear. apply safe_hp_clear. apply (IH _ _ _ _ _ _ v id). exact Hs3. }
+    { intros c' d'. apply safe_hp_clear. apply safe_hp_clear. apply (IH _ _ _ _ _ _ v). exact Hs3. }
     destruct bb; [|apply Hretry3].
     apply safe_act_keep. intros g a tr HI Hv. unfold a_cas_tail.
     destruct (Nat.eqb (tail g) tl); cbn [fst snd]; (split; [|apply Hretry3]).
     + apply Inv_acc. apply Inv_tail; [exact HI|]. eapply inG_GG; eauto.
     + apply Inv_acc. exact HI.
-  - (* t is the last node now (remember it: whatever is linked behind it later is linked during this call) *)
-    set (l2 := mkTV (tv_st l1) (tv_priv l1) (tv_pnx l1) (tv_inG l1) (tv_idx l1) (tv_hlow l1) (Some tl)).
-    assert (Hs2 : shE v id n l2) by exact Hs1.
-    exists l2. split.
-    { apply Inv_acc. pose proof (I_views _ _ _ HI t) as (P1 & P2 & P3 & P4 & _). rewrite Hv in P1, P2, P3, P4.
-      eapply Inv_wit with (tl := tl); try (rewrite Hv; reflexivity); auto.
-      now rewrite Enx. }
-    clear g a tr HI Hv Enx.
-    set (l3 := mkTV (PPend (Enq v) id (st_ob (tv_st l2))) (Some n) mnull (tv_inG l2) (tv_idx l2) (tv_hlow l2) (tv_wit l2)).
-    assert (Hs3 : shE v id n l3) by (repeat split).
+  - (* t is the last node: try to link *)
+    set (l2 := addG l1 []) in *. clear g a tr HI Hv Enx.
     apply safe_act_v. intros g a tr HI Hv. cbn [a_st_next fst snd].
-    exists l3. split.
-    { apply Inv_acc. rewrite (shE_view _ _ _ _ Hs2) in Hv. eapply Inv_st_next_priv; eauto. }
+    exists (mkTV (PPend (Enq v)) (Some n) mnull (tv_inG l2) (tv_idx l2) (tv_hlow l2)). split.
+    { apply Inv_acc. rewrite (shE_view _ _ _ Hs2) in Hv. eapply Inv_st_next_priv; eauto. }
     clear g a tr HI Hv.
+    set (l3 := mkTV (PPend (Enq v)) (Some n) mnull (tv_inG l2) (tv_idx l2) (tv_hlow l2)).
+    assert (Hs3 : shE v n l3) by (split; reflexivity).
     apply safe_act. intros g a tr HI Hv. unfold a_cas_next.
     destruct (mp_eqb (nxt g tl) (None, b0)) eqn:Ecas; cbn [fst snd vb].
     + apply mp_eqb_eq in Ecas.
-      exists (auxb a (live a ++ [n]) t (mkTV (PLin (RBool true)) None mnull [n] [] 0 None) n),
-             (mkTV (PLin (RBool true)) None mnull [n] [] 0 None). split; [reflexivity|]. split.
+      exists (dpre a), (bnd a), (live a ++ [n]), (hidx a), (mkTV (PLin (RBool true)) None mnull [n] [] 0). split.
       { apply Inv_acc. eapply Inv_link_end; eauto. }
       clear g a tr HI Hv Ecas.
       apply safe_act_keep. intros g a tr HI Hv. unfold a_cas_tail.
       destruct (Nat.eqb (tail g) tl); cbn [fst snd]; (split; [|split; reflexivity]).
       * apply Inv_acc. apply Inv_tail; [exact HI|]. eapply inG_GG; eauto. cbn. now left.
       * apply Inv_acc. exact HI.
-    + exists (auxv a t l3), l3. split; [reflexivity|]. split; [eapply keep_view; eauto|].
-      apply Conc.safe_bind. eapply Conc.safe_weaken; [|apply (safe_try_again f t s1 tl n v id l3 Hs3); [exact Hin1|reflexivity]].
+    + exists (dpre a), (bnd a), (live a), (hidx a), l3. split.
+      { apply Inv_acc. pose proof (I_views _ _ _ HI t) as (P1 & P2 & P3 & P4). rewrite Hv in P1, P2, P3, P4.
+        apply Inv_setv; try (rewrite Hv; reflexivity); auto. }
+      apply Conc.safe_bind. eapply Conc.safe_weaken; [|apply (safe_try_again f t s1 tl n v l3 Hs3); exact Hin2].
       intros [[|]|] l4 Hl; cbn in Hl; [exact Hl| |exact I].
-      apply (IH _ _ _ _ _ _ v id). exact Hl.
+      apply (IH _ _ _ _ _ _ v). exact Hl.
 Qed.
 
-Definition VPE (v : Z) (id : nat) : tview := mkTV (PPend (Enq v) id false) None mnull [] [] 0 None.
+Definition VPE (v : Z) : tview := mkTV (PPend (Enq v)) None mnull [] [] 0.
 
-Lemma safe_enqueue cf fuel t s0 s1 c d v id :
-  safe t (enqueue cf fuel t s0 s1 c d v) (VPE v id) Qenq.
+Lemma safe_enqueue cf fuel t s0 s1 c d v :
+  safe t (enqueue cf fuel t s0 s1 c d v) (VPE v) Qenq.
 Proof.
   unfold enqueue. apply safe_act_v. intros g a tr HI Hv.
-  exists (mkTV (PPend (Enq v) id false) (Some (nalloc g)) mnull [] [] 0 None). split.
+  exists (mkTV (PPend (Enq v)) (Some (nalloc g)) mnull [] [] 0). split.
   { apply Inv_acc. eapply Inv_alloc; eauto. }
   cbn [a_alloc fst snd vn]. apply Conc.safe_bind.
-  eapply Conc.safe_weaken; [|apply (safe_enq_loop cf fuel t s0 s1 c d (nalloc g) v id); repeat split].
+  eapply Conc.safe_weaken; [|apply (safe_enq_loop cf fuel t s0 s1 c d (nalloc g) v); split; reflexivity].
   intros [cd|] l Hl; cbn in Hl; [|exact I].
   apply safe_with_ic. apply safe_hp_clear. apply safe_hp_clear. exact Hl.
 Qed.
 
 (** ** dequeue *)
-Definition shD (id : nat) (l : tview) : Prop :=
-  st_op (tv_st l) = Some Deq /\ st_id (tv_st l) = id /\ tv_priv l = None /\ tv_pnx l = mnull.
+Definition shD (l : tview) : Prop := tv_st l = PPend Deq /\ tv_priv l = None /\ tv_pnx l = mnull.
 
-Lemma shD_ext id l l' : shD id l -> ext l l' -> shD id l'.
-Proof.
-  intros (A & B & C & D) (E1 & E2 & (E3 & _) & _). unfold shD. rewrite E2, E3. split; [|split; [|split; assumption]];
-    destruct (tv_st l), (tv_st l'); cbn in *; try discriminate; try congruence;
-    destruct E1 as (X1 & X2 & X3); congruence.
-Qed.
+Lemma shD_ext l l' : shD l -> ext l l' -> shD l'.
+Proof. intros (A & B & C) (E1 & E2 & E3 & _). repeat split; congruence. Qed.
 
-Lemma shD_view id l : shD id l ->
-  l = mkTV (PPend Deq id (st_ob (tv_st l))) None mnull (tv_inG l) (tv_idx l) (tv_hlow l) (tv_wit l).
-Proof.
-  destruct l as [s p x g i h w]; unfold shD; cbn. intros (E1 & E2 & E3 & E4). subst.
-  destruct s; cbn in *; try discriminate. injection E1 as ->. reflexivity.
-Qed.
-
-Lemma ext_ob l l' : ext l l' -> st_ob (tv_st l) = true -> st_ob (tv_st l') = true.
-Proof.
-  intros (E1 & _) H. destruct (tv_st l), (tv_st l'); cbn in *; try discriminate; try congruence.
-  destruct E1 as (_ & _ & X). auto.
-Qed.
+Lemma shD_view l : shD l -> l = mkTV (PPend Deq) None mnull (tv_inG l) (tv_idx l) (tv_hlow l).
+Proof. destruct l; unfold shD; cbn. intros (E1 & E2 & E3). subst. reflexivity. Qed.
 
 (** a load after which the thread replaces its facts by a superset *)
 Lemma step_facts g a tr t l v' k o b :
@@ -474,12 +417,11 @@ Lemma step_facts g a tr t l v' k o b :
   (forall x i, In (x, i) (tv_idx v') ->
      In (x, i) (tv_idx l) \/ (nth_error (GG a) i = Some x /\ (i <= List.length (dpre a))%nat)) ->
   (tv_hlow v' <= tv_hlow l \/ tv_hlow v' <= hidx a)%nat ->
-  tv_wit v' = tv_wit l ->
   Inv g (auxv a t v') (tr ++ Conc.tag t [EvAcc k o b]).
 Proof.
-  intros HI Hv E1 E2 E3 F1 F2 F3 E4. apply Inv_acc.
-  pose proof (I_views _ _ _ HI t) as (P1 & P2 & P3 & P4 & _). rewrite Hv in P1, P2, P3, P4.
-  apply Inv_setv; [exact HI|rewrite Hv; assumption|rewrite Hv; assumption|rewrite Hv; assumption| | | |rewrite Hv; assumption].
+  intros HI Hv E1 E2 E3 F1 F2 F3. apply Inv_acc.
+  pose proof (I_views _ _ _ HI t) as (P1 & P2 & P3 & P4). rewrite Hv in P1, P2, P3, P4.
+  apply Inv_setv; [exact HI|rewrite Hv; assumption|rewrite Hv; assumption|rewrite Hv; assumption| | |].
   - intros m Hm. destruct (F1 m Hm); auto.
   - intros x i Hx. destruct (F2 x i Hx); auto.
   - destruct F3; lia.
@@ -490,7 +432,7 @@ Lemma idx_fact g a tr t l x i : Inv g a tr -> views a t = l -> In (x, i) (tv_idx
 Proof. intros HI Hv Hx. pose proof (I_views _ _ _ HI t) as (_ & _ & P3 & _). rewrite Hv in P3. auto. Qed.
 
 Lemma hlow_fact g a tr t l : Inv g a tr -> views a t = l -> (tv_hlow l <= hidx a)%nat.
-Proof. intros HI Hv. pose proof (I_views _ _ _ HI t) as (_ & _ & _ & P4 & _). now rewrite Hv in P4. Qed.
+Proof. intros HI Hv. pose proof (I_views _ _ _ HI t) as (_ & _ & _ & P4). now rewrite Hv in P4. Qed.
 
 (** two indexed facts about the same index / the head *)
 Lemma head_idx g a tr x i :
@@ -514,12 +456,12 @@ Proof.
   apply safe_ld_keep; [apply ld_head_plain|]. intros r.
   apply safe_hp_assign.
   apply safe_act_v. intros g a tr HI Hv. cbn [a_ld_head fst snd vn].
-  set (l1 := mkTV (tv_st l) (tv_priv l) (tv_pnx l) (head g :: tv_inG l) ((head g, hidx a) :: tv_idx l) (hidx a) (tv_wit l)).
+  set (l1 := mkTV (tv_st l) (tv_priv l) (tv_pnx l) (head g :: tv_inG l) ((head g, hidx a) :: tv_idx l) (hidx a)).
   assert (E1 : ext l l1).
-  { apply ext_mk; cbn; auto using incl_tl, incl_refl. eapply hlow_fact; eauto. }
+  { repeat split; cbn; auto using incl_tl, incl_refl. eapply hlow_fact; eauto. }
   exists l1. split.
   { destruct (I_head _ _ _ HI) as (A1 & A2).
-    eapply (step_facts g a tr t l l1); [exact HI|exact Hv|reflexivity|reflexivity|reflexivity| | | |reflexivity]; cbn.
+    eapply (step_facts g a tr t l l1); [exact HI|exact Hv|reflexivity|reflexivity|reflexivity| | |]; cbn.
     - intros m [<-|Hm]; [right; eapply nth_error_In; eauto|now left].
     - intros x i [E|Hx]; [injection E as <- <-; right; auto|now left].
     - right. lia. }
@@ -549,55 +491,40 @@ Qed.
 Definition Qmi (l : tview) (j : nat) : option mptr -> tview -> Prop :=
   fun r l' => match r with
               | Some pn => ext l l' /\ (forall x, fst pn = Some x -> In x (tv_inG l')) /\
-                           (forall x, fst pn = Some x -> snd pn = true -> In (x, S j) (tv_idx l')) /\
-                           (fst pn = None -> st_ob (tv_st l') = true)
+                           (forall x, fst pn = Some x -> snd pn = true -> In (x, S j) (tv_idx l'))
               | None => True
               end.
 
-Lemma safe_protect_m_idx fuel : forall t s y j id l,
-  shD id l -> In y (tv_inG l) -> In (y, j) (tv_idx l) -> safe t (protect_m fuel t s y) l (Qmi l j).
+Lemma safe_protect_m_idx fuel : forall t s y j l,
+  In y (tv_inG l) -> In (y, j) (tv_idx l) -> safe t (protect_m fuel t s y) l (Qmi l j).
 Proof.
-  induction fuel as [|f IH]; intros t s y j id l Hs Hy Hj; cbn [protect_m]; [exact I|].
+  induction fuel as [|f IH]; intros t s y j l Hy Hj; cbn [protect_m]; [exact I|].
   apply safe_ld_keep; [apply ld_next_plain|]. intros r.
   apply safe_hp_assign.
   apply safe_act_v. intros g a tr HI Hv. cbn [a_ld_next fst snd vm].
   set (xi := match nxt g y with (Some x, true) => [(x, S j)] | _ => [] end).
-  set (st1 := match fst (nxt g y) with None => PPend Deq id true | Some _ => tv_st l end).
-  set (l1 := mkTV st1 (tv_priv l) (tv_pnx l) (olist (fst (nxt g y)) ++ tv_inG l) (xi ++ tv_idx l) (tv_hlow l) (tv_wit l)).
-  pose proof (shD_view _ _ Hs) as Elv.
-  assert (E1 : ext l l1).
-  { unfold ext. cbn. repeat split; auto using incl_appr, incl_refl.
-    unfold st1. destruct (fst (nxt g y)); [apply st_le_refl|].
-    rewrite Elv. cbn. auto. }
-  assert (Hfi : forall x i, In (x, i) xi -> nth_error (GG a) i = Some x /\ (i <= List.length (dpre a))%nat).
-  { intros x i Hx. unfold xi in Hx. destruct (nxt g y) as [[x0|] [|]] eqn:En; cbn in Hx; try contradiction.
-    destruct Hx as [Hx|[]]. injection Hx as <- <-.
-    destruct (idx_fact _ _ _ _ _ _ _ HI Hv Hj) as (Ej & Lj).
-    assert (j <> List.length (dpre a)).
-    { intros ->. unfold GG in Ej. rewrite nth_error_app2, Nat.sub_diag in Ej by lia. cbn in Ej. injection Ej as Ej.
-      pose proof (I_mpost _ _ _ HI y (or_introl Ej)) as Hm. rewrite En in Hm. discriminate. }
-    split; [|lia]. eapply linked_nth; [apply (I_linked _ _ _ HI)|exact Ej|]. unfold nptr. now rewrite En. }
+  set (l1 := mkTV (tv_st l) (tv_priv l) (tv_pnx l) (olist (fst (nxt g y)) ++ tv_inG l) (xi ++ tv_idx l) (tv_hlow l)).
+  assert (E1 : ext l l1) by (repeat split; cbn; auto using incl_appr, incl_refl).
   exists l1. split.
-  { destruct (fst (nxt g y)) as [x0|] eqn:Ef.
-    - eapply (step_facts g a tr t l l1); [exact HI|exact Hv|unfold l1, st1; reflexivity|reflexivity|reflexivity| | | |reflexivity]; cbn.
-      + intros m [<-|Hm]; [right|now left].
-        eapply linked_succ; [apply (I_linked _ _ _ HI)|eapply inG_GG; eauto|exact Ef].
-      + intros x i Hx. apply in_app_or in Hx. destruct Hx as [Hx|Hx]; [right; auto|now left].
-      + left. lia.
-    - apply Inv_acc. rewrite Elv in Hv. rewrite Elv in Hj. cbn in Hj.
-      pose proof (I_views _ _ _ HI t) as (_ & P2 & P3 & P4 & _). rewrite Hv in P2, P3, P4. cbn in P2, P3, P4.
-      eapply Inv_obs with (y := y) (j := j); [exact HI|exact Hv|exact Hj|exact Ef|reflexivity| | |reflexivity| | |];
-        try (cbn; destruct Hs as (_ & _ & S3 & S4); assumption).
-      cbn. intros x i Hx. apply in_app_or in Hx. destruct Hx as [Hx|Hx]; auto. }
+  { eapply (step_facts g a tr t l l1); [exact HI|exact Hv|reflexivity|reflexivity|reflexivity| | |]; cbn.
+    - intros m Hm. apply in_app_or in Hm. destruct Hm as [Hm|Hm]; [right|now left].
+      eapply succ_in_GG; eauto. eapply inG_GG; eauto.
+    - intros x i Hx. apply in_app_or in Hx. destruct Hx as [Hx|Hx]; [right|now left].
+      unfold xi in Hx. destruct (nxt g y) as [[x0|] [|]] eqn:En; cbn in Hx; try contradiction.
+      destruct Hx as [Hx|[]]. injection Hx as <- <-.
+      destruct (idx_fact _ _ _ _ _ _ _ HI Hv Hj) as (Ej & Lj).
+      assert (j <> List.length (dpre a)).
+      { intros ->. unfold GG in Ej. rewrite nth_error_app2, Nat.sub_diag in Ej by lia. cbn in Ej. injection Ej as Ej.
+        pose proof (I_mpost _ _ _ HI y (or_introl Ej)) as Hm. rewrite En in Hm. discriminate. }
+      split; [|lia]. eapply linked_nth; [apply (I_linked _ _ _ HI)|exact Ej|]. unfold nptr. now rewrite En.
+    - left. lia. }
   destruct (mp_eqb (nxt g y) (vm r)) eqn:E.
-  - apply mp_eqb_eq in E. rewrite <- E. split; [exact E1|]. split; [|split].
+  - apply mp_eqb_eq in E. rewrite <- E. split; [exact E1|]. split.
     + intros x Ex. cbn. rewrite Ex. cbn. now left.
     + intros x Ex Em. cbn. apply in_or_app. left. unfold xi. destruct (nxt g y) as [[x0|] [|]]; cbn in *; try discriminate.
       injection Ex as ->. now left.
-    + intros Ex. cbn. unfold st1. now rewrite Ex.
-  - eapply Conc.safe_weaken; [|apply (IH t s y j id l1)].
+  - eapply Conc.safe_weaken; [|apply (IH t s y j l1)].
     + intros [pn|] l' Hl; [|exact I]. destruct Hl as (E2 & R). split; [eapply ext_trans; eauto|exact R].
-    + eapply shD_ext; eauto.
     + cbn. apply in_or_app. now right.
     + cbn. apply in_or_app. now right.
 Qed.
@@ -627,11 +554,13 @@ Proof.
   intros Hi Hj Hlt. unfold free_chain.
   apply safe_act. intros g a tr HI Hv. unfold a_cas_head.
   destruct (Nat.eqb_spec (head g) h) as [Eh|Hne]; cbn [fst snd vb].
-  - exists (auxset a (dpre a) (bnd a) (live a) j t l), l. split; [reflexivity|]. split.
+  - exists (dpre a), (bnd a), (live a), j, l. split.
     { apply Inv_acc. rewrite <- Hv. eapply Inv_headcas; eauto; rewrite Hv; eauto. }
     apply safe_hp_assign. apply Conc.safe_bind. eapply Conc.safe_weaken; [|apply safe_free_loop].
     intros [u|] l' ->; [|reflexivity]. apply safe_hp_clear. apply safe_hp_clear. reflexivity.
-  - exists (auxv a t l), l. split; [reflexivity|]. split; [eapply keep_view; eauto|reflexivity].
+  - exists (dpre a), (bnd a), (live a), (hidx a), l. split; [|reflexivity].
+    apply Inv_acc. pose proof (I_views _ _ _ HI t) as (P1 & P2 & P3 & P4). rewrite Hv in P1, P2, P3, P4.
+    apply Inv_setv; try (rewrite Hv; reflexivity); auto.
 Qed.
 
 (** *** h == t: look for the last node *)
@@ -662,15 +591,14 @@ Definition Qhop (l : tview) (i tl : nat) : option (nat * mptr * nat) -> tview ->
               | None => True
               end.
 
-Lemma safe_hop_loop fuel : forall t s2 sg h i tl iter j pn hops id l,
-  shD id l ->
+Lemma safe_hop_loop fuel : forall t s2 sg h i tl iter j pn hops l,
   In (h, i) (tv_idx l) -> (i <= tv_hlow l)%nat ->
   In (iter, j) (tv_idx l) -> (i <= j)%nat ->
   (forall x, fst pn = Some x -> In x (tv_inG l)) ->
   (forall x, fst pn = Some x -> snd pn = true -> In (x, S j) (tv_idx l)) ->
   safe t (hop_loop fuel t s2 sg h tl iter pn hops) l (Qhop l i tl).
 Proof.
-  induction fuel as [|f IH]; intros t s2 sg h i tl iter j pn hops id l Hs Hh Hhl Hit Hij Hp1 Hp2; cbn [hop_loop]; [exact I|].
+  induction fuel as [|f IH]; intros t s2 sg h i tl iter j pn hops l Hh Hhl Hit Hij Hp1 Hp2; cbn [hop_loop]; [exact I|].
   destruct (fst pn) as [x|] eqn:Ep.
   2:{ cbn. split; [apply ext_refl|]. split; [intros x0 E; congruence|]. split; [eauto|]. right. now left. }
   destruct (snd pn && negb (Nat.eqb iter tl)) eqn:Ec.
@@ -691,14 +619,14 @@ Proof.
       [apply X5; exact Hh|lia|apply X5; apply Hp2; auto|lia|exact Q1|exact Q2]].
     intros [[[it' pn'] hp']|] l' Hl; [|exact I]. destruct Hl as (E2 & R). split; [eapply ext_trans; eauto|exact R].
   - (* head has moved: its index is now beyond i *)
-    set (l1 := mkTV (tv_st l) (tv_priv l) (tv_pnx l) (tv_inG l) (tv_idx l) (hidx a) (tv_wit l)).
+    set (l1 := mkTV (tv_st l) (tv_priv l) (tv_pnx l) (tv_inG l) (tv_idx l) (hidx a)).
     assert (Hlt : (i < hidx a)%nat).
     { destruct (idx_fact _ _ _ _ _ _ _ HI Hv Hh) as (Ei & _).
       pose proof (hlow_fact _ _ _ _ _ HI Hv) as Hl.
       destruct (Nat.eq_dec (hidx a) i) as [E|]; [|lia].
       destruct (I_head _ _ _ HI) as (E1 & _). rewrite E in E1. congruence. }
     exists l1. split.
-    { eapply (step_facts g a tr t l l1); [exact HI|exact Hv|reflexivity|reflexivity|reflexivity| | | |reflexivity]; cbn; auto. }
+    { eapply (step_facts g a tr t l l1); [exact HI|exact Hv|reflexivity|reflexivity|reflexivity| | |]; cbn; auto. }
     split; [repeat split; cbn; auto using incl_refl; eapply hlow_fact; eauto|].
     split; [cbn; rewrite Ep; exact Hp1|]. split; [cbn; eauto|]. right. right. right. cbn. exact Hlt.
 Qed.
@@ -711,6 +639,11 @@ Definition Qdeq : dres -> tview -> Prop :=
              | DGot _ v _ _ => tv_st l = PLin (RVal (Some v)) /\ tv_priv l = None
              end.
 
+Lemma keep_view g a tr t l k o b : Inv g a tr -> views a t = l -> Inv g (auxv a t l) (tr ++ Conc.tag t [EvAcc k o b]).
+Proof.
+  intros HI Hv. apply Inv_acc. pose proof (I_views _ _ _ HI t) as (P1 & P2 & P3 & P4). rewrite Hv in P1, P2, P3, P4.
+  apply Inv_setv; try (rewrite Hv; reflexivity); auto.
+Qed.
 
 Lemma safe_deq_loop cf fuel : forall t s0 s1 s2 sg e f l,
   shD l -> safe t (deq_loop cf fuel t s0 s1 s2 sg e f) l Qdeq.
